@@ -334,6 +334,38 @@ def explore_shard(acc, shard):
             for f in fails:
                 acc.violation(f["clause"], case, f["expected"], f["observed"], signature=(layer, f["clause"]))
         acc.sample(layer, case)
+    elif kind == "Z":
+        # size thresholds: the first parameter preceded by N characters of comments / blank lines / (lenient) stray text,
+        # and values of N characters, for N around powers of two (buffer and sniffing sizes)
+        _, sizes = shard
+        layer = "Z long preambles and values"
+        env = Env()
+        try:
+            case = None
+            for n in sizes:
+                for pre_kind, unit in (("comment", "// 0123456789abcdef\n"), ("blank", " \n"), ("stray", "stray text\n")):
+                    pre = (unit * (n // len(unit) + 1))[: n - 1] + "\n"
+                    for body in ("#VERSION:0.83;\n#TITLE:t;\n#NOTEDATA:;\n#STEPSTYPE:x;\n#NOTES:0000;\n", "#TITLE:t;\n#VERSION:0.83;\n#NOTES:a:b:c:d:e:f;\n"):
+                        text = pre + body
+                        case = {"kind": "text", "text": text, "files": True, "native": True}
+                        core.guard(acc, {"kind": "text", "text": text[:60] + "...", "preamble": pre_kind, "size": n})
+                        fails, m, excluded = check_text(text, env, True, True)
+                        acc.count("states")
+                        acc.count("transitions")
+                        acc.count("evaluations", m)
+                        acc.count("nontrivial")
+                        acc.outcome("first parameter behind a long preamble")
+                        if fails:
+                            report(acc, layer, {"kind": "text", "text": text}, [dict(f, expected="(long)" if len(str(f["expected"])) > 300 else f["expected"]) for f in fails])
+                big = "#VERSION:0.83;\n#TITLE:" + ("ab\\:c" * (n // 5 + 1))[:n] + "x;\n#ARTIST:z;\n"
+                fails, m, excluded = check_text(big, env, True, True)
+                acc.count("states")
+                acc.count("evaluations", m)
+                if fails:
+                    report(acc, layer, {"kind": "text", "text": big}, [dict(f, expected="(long)", observed="(long)" if len(str(f["observed"])) > 300 else f["observed"]) for f in fails])
+            acc.sample(layer, {"sizes": list(sizes)})
+        finally:
+            env.close()
     elif kind == "corpus":
         _, idx = shard
         rel, path = X.corpus_files()[idx]
@@ -386,6 +418,9 @@ def explore(run):
         shards.append(("K", head))
     for n in range(0, 9):
         shards.append(("M", n))
+    sizes = [63, 64, 255, 256, 511, 512, 1000, 1016, 1023, 1024, 1025, 2047, 2048, 4095, 4096, 4097, 8191, 8192, 8193, 16384, 65536, 70000]
+    for i in range(0, len(sizes), 2):
+        shards.append(("Z", tuple(sizes[i:i + 2])))
     shards += [("corpus", i) for i in range(len(X.corpus_files()))]
     k = run.seed % len(shards)
     shards = shards[k:] + shards[:k]
